@@ -761,7 +761,14 @@ func (e *Engine) checkAssert(st *State, c *Term, label string) {
 	if r == Unknown && e.cfg.EscalateSec > 0 {
 		r, m, by = e.solver.Escalate(st.PC, Not(c), e.cfg.EscalateSec, true, nil)
 	} else if r != Unknown && e.cfg.CrossCheck {
-		r2, _, by2 := e.solver.Escalate(st.PC, Not(c), e.cfg.EscalateSec, false, []string{"cvc5", "z3-4.8.12"})
+		// (the same conjuncts the live query asserted: after an `unknown`
+		// feasibility answer a path condition may be unsatisfiable, and slicing
+		// an unsatisfiable path condition changes the answer)
+		rel := e.solver.lastRel
+		ns := e.solver.NoSlice
+		e.solver.NoSlice = true
+		r2, _, by2 := e.solver.Escalate(rel, Not(c), e.cfg.EscalateSec, false, []string{"cvc5", "z3-4.8.12"})
+		e.solver.NoSlice = ns
 		e.solver.Stats.CrossCheck++
 		if r2 != Unknown && r2 != r {
 			e.solver.Stats.Disagree = append(e.solver.Stats.Disagree, fmt.Sprintf("assert %q: %s=%v vs %s=%v", label, by, r, by2, r2))
